@@ -271,12 +271,13 @@ LldpIdEl(n, kind, type, subtype, data) ==
 LldpTtlEl(n, secs) ==
   LET t == [T |-> "TTLTLV", Type |-> <<3>>, Length |-> <<0, 2>>, Seconds |-> secs] IN
   El(n, t, <<NewT(n, "TTLTLV")>> \o SetAll(n, t, <<"Type", "Length", "Seconds">>))
-NextDL == \/ \E hlen \in {0, 1, 6, 16}, k \in 0..4, tag \in {5, 90} :
+NextDL == \/ \E hlen \in {0, 1, 6, 16}, k \in 0..5, tag \in {5, 90} :
                LET opts == CASE k = 0 -> <<>>
                              [] k = 1 -> <<DOpt(53, <<1>>)>>
                              [] k = 2 -> <<DOpt(53, <<5>>), DOpt(51, V(tag, 4)), DOpt(61, V(tag + 1, 7))>>
                              [] k = 3 -> <<DOpt(0, <<>>), DOpt(0, <<>>), DOpt(12, V(tag, 40))>>       \* pad options (the end option is written by the encoder)
-                             [] k = 4 -> <<DOpt(60, <<>>), DOpt(55, V(tag, 253))>> IN
+                             [] k = 4 -> <<DOpt(60, <<>>), DOpt(55, V(tag, 253))>>
+                             [] k = 5 -> <<DOpt(53, <<2>>), DOpt(255, <<>>), DOpt(0, <<>>), DOpt(0, <<>>), DOpt(0, <<>>)>> IN   \* an explicit end option followed by pad options (BOOTP minimum size)
                /\ c' = <<"dhcp", hlen, k, tag>>
                /\ Emit("DL", DhcpEl("d", tag, hlen, opts), <<>>)
           \/ \E dl \in {0, 1, 6, 255, 510}, kind \in {"ChassisTLV", "PortTLV"}, tag \in {5, 90} :
